@@ -39,11 +39,18 @@ def binof(x):
 @st.composite
 def length_st(draw, max_len=300, long=False):
     k = draw(st.integers(0, 9))
-    if k <= 3:
+    if k <= 2:
         pool = [l for l in BOUNDARY_LENGTHS if l <= max_len]
         if long:
             pool = pool + [l for l in LONG_LENGTHS if l <= max_len]
         return draw(st.sampled_from(pool))
+    if k == 3:
+        # block boundaries: small multiples of powers of two, +-1 (buffer/chunk sizes a refactor might introduce)
+        j = draw(st.integers(3, 14))
+        n = draw(st.integers(1, 3)) * (1 << j) + draw(st.sampled_from([-1, 0, 0, 1]))
+        if n <= max_len:
+            return n
+        return draw(st.integers(0, min(max_len, 40)))
     if k <= 7:
         return draw(st.integers(0, min(max_len, 40)))
     return draw(st.integers(0, max_len))
